@@ -136,4 +136,68 @@ Proof.
       lia.
 Qed.
 
+Notation subs_of := (fun ll => spec_subsamples cleaned passthrough filt ll cat).
+
+Lemma total_blocks x : In x l -> total cleaned allrows x = len (concat (blocks x cat)).
+Proof. intros Hx. unfold total, allrows. apply cnt_sum_cat; [exact Hx|tauto]. Qed.
+
+Lemma spec_subsamples_snoc ll x : subs_of (ll ++ [x]) = subs_of ll ++ concat (blocks x cat).
+Proof. unfold spec_subsamples. rewrite flat_map_app. cbn [flat_map]. rewrite app_nil_r. reflexivity. Qed.
+
+Lemma len_subs_of ll : (forall x, In x ll -> In x l) ->
+  len (subs_of ll) = zsum (map (total cleaned allrows) ll).
+Proof.
+  induction ll as [|x t IH]; intros Hin; [reflexivity|].
+  unfold spec_subsamples in *. cbn [flat_map map zsum]. rewrite len_app, IH by (intros; apply Hin; right; assumption).
+  rewrite total_blocks by (apply Hin; left; reflexivity). reflexivity.
+Qed.
+
+Lemma offset_of_base x : forall ll, (forall y, In y ll -> In y l) ->
+  offset_of cleaned passthrough filt ll x cat = base cleaned ll allrows x.
+Proof.
+  induction ll as [|y t IH]; intros Hin; [reflexivity|].
+  cbn [offset_of base]. destruct (ab_eqb x y); [reflexivity|].
+  rewrite IH by (intros; apply Hin; right; assumption).
+  rewrite total_blocks by (apply Hin; left; reflexivity). reflexivity.
+Qed.
+
+Hypothesis Hnd : NoDup l.
+
+Lemma base_done done x todo : l = done ++ x :: todo -> base cleaned l allrows x = len (subs_of done).
+Proof.
+  intros Hl. rewrite Hl, base_app.
+  - symmetry. apply len_subs_of. intros y Hy. rewrite Hl. apply in_or_app. left. exact Hy.
+  - rewrite Hl in Hnd. apply NoDup_remove_2 in Hnd. intros H. apply Hnd. apply in_or_app. left. exact H.
+Qed.
+
+Lemma load_abs_spec : forall todo done pre k,
+  l = done ++ todo ->
+  len pre = len (subs_of done) ->
+  len (subs_of todo) <= Z.of_nat k ->
+  load_abs dec cleaned todo (map zrow allrows) (dict_final cleaned l allrows 0) (prefix_sums 0 counts) cat
+           (pre ++ repeat None k)
+  = Ok ((pre ++ map Some (map dec (subs_of todo))) ++ repeat None (k - length (subs_of todo))).
+Proof.
+  induction todo as [|x todo IH]; intros done pre k Hl Hpre Hk.
+  - cbn. rewrite app_nil_r, Nat.sub_0_r. reflexivity.
+  - cbn [load_abs].
+    assert (Hx : In x l) by (rewrite Hl; apply in_or_app; right; left; reflexivity).
+    rewrite find_starts_final by exact Hx. cbn [bind]. rewrite Z.add_0_l.
+    rewrite (base_done done x todo Hl).
+    assert (Hsub : subs_of (x :: todo) = concat (blocks x cat) ++ subs_of todo) by reflexivity.
+    rewrite Hsub, len_app in Hk. pose proof (len_nonneg (subs_of todo)) as Ht0.
+    change 0 with (len (@nil (slab P))) at 2.
+    rewrite (load_files_spec x (len (subs_of done)) Hx cat [] pre k).
+    + cbn [bind]. rewrite (IH (done ++ [x])).
+      * rewrite Hsub, !map_app, <- !app_assoc, app_length.
+        replace (k - (length (concat (blocks x cat)) + length (subs_of todo)))%nat
+          with (k - length (concat (blocks x cat)) - length (subs_of todo))%nat by lia. reflexivity.
+      * rewrite <- app_assoc. exact Hl.
+      * rewrite len_app, !len_map, spec_subsamples_snoc, len_app. lia.
+      * unfold len in *. lia.
+    + reflexivity.
+    + rewrite Hpre. unfold cat_blocks. cbn [flat_map concat]. rewrite len_nil. lia.
+    + lia.
+Qed.
+
 End Load.
